@@ -112,5 +112,14 @@ def run(out, tier, seed):
     for fmt in ("xml", "turtle", "nt", "n3"):
         for enc in ("latin-1", "ascii", "utf-16", "utf-8", "cp1252"):
             jobs.append({"cfg": {}, "events": [{"op": "roundtrip", "fmt": fmt, "shape": "opt:encoding:" + enc, "before": enc_graph, "expressible": True, "ser_kw": {"encoding": enc}, "prefixes": [["ex", shapes.EX]]}]})
+    # prefixes that read like keywords of the Turtle family, bound with and without the empty prefix next to them
+    KWNS = "http://ex.example/kw/"
+    kw_graph = [[I_(KWNS + "s"), I_(KWNS + "p"), I_(KWNS + "o")], [S1_, P1_, I_(KWNS + "o")], [I_(KWNS + "s"), TYPE_, I_(KWNS + "C")], [I_(KWNS + "s"), P1_, L_("true", dt=shapes.XSD + "boolean")],
+                [I_(KWNS + "s"), P2_, L_("x", dt=KWNS + "dt")]]
+    for fmt in FORMATS:
+        for kwp in ("a", "true", "false", "prefix", "PREFIX", "base", "BASE", "graph", "GRAPH", "is", "of", "has", "this", "_"):
+            for extra in ([], [["", shapes.EX]]):
+                jobs.append({"cfg": {}, "events": [{"op": "roundtrip", "fmt": fmt, "shape": "opt:kw-prefix:" + kwp + ("+empty" if extra else ""), "before": kw_graph, "expressible": True,
+                                                    "prefixes": [[kwp, KWNS]] + extra}]})
     out.exhaustive = not quick
     out.conform(__name__, TRACE, jobs, nontrivial=nontrivial, chunk=400, par=16, heap="2g")
